@@ -692,6 +692,51 @@ theorem finite_score_has_tree (ops : TreeOps τ) (ws : List Wrapper) (obj : Obje
         simp only [Option.some.injEq] at h
         subst h; rfl
 
+/-- **scoring_failure_isolated** — a trial whose tree was built (and post-processed) fine but
+    whose *scoring* raises (`obj.call = none`: a user objective rejecting the tree, an
+    `OverflowError` inside a built-in objective, …) is turned into exactly the failure record,
+    like any other failed trial, unless `on_trial_error='raise'`; `_maybe_report_result` can read
+    it (no `KeyError`) and it carries score `inf` and no tree. -/
+theorem scoring_failure_isolated (ops : TreeOps τ) (ws : List Wrapper) (obj : Objective τ)
+    (postEnsure : Bool) (onErr : OnErr) (hne : onErr ≠ .raise) (t : τ) (d : TDict τ)
+    (hs : runStack ops ws (baseDict t) = some d) (hc : obj.call ops d = none) (idOf : τ → Nat) :
+    computeScore ops ws obj postEnsure onErr (.ok t) = some failRec ∧
+      toTrial idOf (failRec : RDict τ) =
+        some { score := none, flops := none, write := none, size := none, tree := none } := by
+  constructor
+  · unfold computeScore
+    simp only [hs, hc, hne, if_false]
+  · rfl
+
+/-- a failure record in the log changes nothing for the others: the best after the log with the
+    failed trial inserted anywhere is the best without it -/
+theorem failed_trial_does_not_affect_best (mts : Option Nat) (l₁ l₂ : Log) (s : Setting)
+    (t : Trial) (hfail : t.score = none) :
+    (runLog (HState.init mts) (l₁ ++ (s, t) :: l₂)).best =
+      (runLog (HState.init mts) (l₁ ++ l₂)).best := by
+  have hstep : ∀ st : HState, (complete st s t).best = st.best ∧
+      (complete st s t).paramChoices = st.paramChoices ++ [s.params] := by
+    intro st
+    refine ⟨?_, by simp⟩
+    rw [complete_best, hfail]; simp
+  -- the rest of the log only looks at `best` (through `curBest`) when deciding, and writes its own
+  -- params; so states that agree on `best` stay in agreement on `best`
+  have hrest : ∀ (l : Log) (st st' : HState), st'.best = st.best →
+      (runLog st' l).best = (runLog st l).best := by
+    intro l
+    induction l with
+    | nil => intro st st' h; exact h
+    | cons e l ih =>
+      intro st st' h
+      simp only [runLog, List.foldl_cons]
+      apply ih
+      rw [complete_best, complete_best]
+      have : st'.curBest = st.curBest := by unfold HState.curBest; rw [h]
+      rw [this, h]
+  rw [runLog_append, runLog_append]
+  simp only [runLog, List.foldl_cons]
+  exact hrest l₂ _ _ (hstep _).1
+
 /-- a record that `_maybe_report_result` can read (no `KeyError`) and whose figures are true -/
 theorem toTrial_of_trueRecord (ops : TreeOps τ) (idOf : τ → Nat) (r : RDict τ)
     (h : TrueRecord ops r) :
